@@ -367,6 +367,9 @@ func checkC19(P *Prog, r *Result) {
 	// execution that writes through a captured variable changes what the next execution tests (C08's write-effects rule,
 	// which classifies closure-capture roots)
 	shareRule(P, r, checkC08, "C08/write-effects", nil, "C19/captured-values-read-only", 30)
+	// "a schema behaves identically on its first and on every later use": nothing a use leaves on a recycled context
+	// reaches the next use (C07's re-initialisation rule on the node context; no floor: see shareRule)
+	shareRule(P, r, checkC07, "C07/reinit", func(o Obligation) bool { return strings.Contains(o.Construct, "#zog/internals.SchemaCtx.") }, "C19/same-on-later-use", 0)
 }
 
 func destWriteName(w writeSite) string {
